@@ -480,6 +480,16 @@ fn part_scaling(thorough: bool) -> Stats {
             let s2 = format!("\"\"+{}+\"\"", q);
             check_value(&s2, &RV::Str(t.clone()), "string-literal", json!({"text": t, "source": s2}), &mut st);
         }
+        // plain runs of n characters (no quote or backslash), alone, escaped at the end, and embedded
+        for t in ["a".repeat(n), "ä".repeat(n), format!("{}\"", "b".repeat(n)), format!("{}\\{}", "c".repeat(n), "d".repeat(n))] {
+            let q = quote(&t);
+            st.count("s/long-strings");
+            check_value(&q, &RV::Str(t.clone()), "string-literal", json!({"text": t, "source": q}), &mut st);
+            let s3 = format!("{}+{}", q, q);
+            check_value(&s3, &RV::Str(format!("{}{}", t, t)), "string-literal", json!({"text": t, "source": s3}), &mut st);
+            let s4 = format!("x={} ;x", q);
+            check_value(&s4, &RV::Str(t.clone()), "string-literal", json!({"text": t, "source": s4}), &mut st);
+        }
         // identifiers of n characters (ASCII and not), alone and next to operators
         for word in ["x".repeat(n), "é".repeat(n), format!("{}9", "_".repeat(n)), format!("a{}", "0".repeat(n))] {
             st.count("s/long-identifiers");
